@@ -28,13 +28,16 @@
                                                                 collection when the member has one (field lfp)
      CylindricalComponentsAverageBlockCollection             -> rep = "ComponentAverage1DCylinder"
        ._selectCandidateBlock/_getNewBlock                   -> CylSourceIdx (candidate at index n div 2 of (block-average temperature, name))
+     SlabComponentsAverageBlockCollection                    -> rep = "ComponentAverage1DSlab": the same component averages on blocks of
+                                                                rectangles stored in one order; copy of the first candidate; it computes
+                                                                no nuclide temperatures (ntemp = <<>>)
        ._makeRepresentativeBlock/_getAverageComponentNucs    -> per sorted component, weights W * component area = AvgCompDens with volume
                                                                 weights (the areas agree between blocks); burnup and nuclide temperatures
                                                                 as for Average; component temperatures stay those of the copied candidate
 
    A block is a record
      kind  block type ("fuel", "control", "reflector"); the valid-block-type filter selects on it
-     alt   FALSE: components flagged fuel/clad, TRUE: fuel/duct  (by-component averaging needs equal flags)
+     alt   FALSE: components flagged fuel/clad, TRUE: fuel/bond  (by-component averaging needs equal flags)
      h     height; every block has the same components with hot areas CompArea, so volume = Area*h, component volume a_c*h
      w     the weighting parameter value (flux);  bu  percentBu;  hm  massHmBOL
      n     n[c][k] number density of nuclide k in component c (0 where c does not hold k; Holds[c] = keys of the dict)
@@ -72,7 +75,7 @@ Area  == FoldLeft(LAMBDA acc, a : acc + a, 0, CompArea)
 Vol(b)     == Area * b.h
 CVol(b, c) == CompArea[c] * b.h
 
-Reps    == {"Median", "Average", "FluxWeightedAverage", "ComponentAverage1DCylinder"}
+Reps    == {"Median", "Average", "FluxWeightedAverage", "ComponentAverage1DCylinder", "ComponentAverage1DSlab"}
 Filters == {"all", "fuel", "fuelcontrol"}
 FilterKinds(f) == CASE f = "fuel" -> {"fuel"} [] f = "fuelcontrol" -> {"fuel", "control"} [] OTHER -> {"fuel", "control", "reflector"}
 Opt(r, f, c) == [rep |-> r, filter |-> f, byComp |-> c]
@@ -171,6 +174,13 @@ RepOf(ms, opt) ==
                 ctemp |-> [c \in Comps |-> RInt(cs[m].t[c])],
                 ntemp |-> [k \in Nucs |-> NucTemp(cs, r, k)],
                 bu    |-> Burnup(cs, r)]
+       ELSE IF r = "ComponentAverage1DSlab" THEN                                   \* copy of the first candidate; no nuclide temperatures
+            [out |-> "ok", mode |-> "slab", src |-> ps[1], lfp |-> cs[1].lfp,
+             dens  |-> [k \in Nucs |-> AvgDens(cs, r, k)],
+             cdens |-> [c \in Comps |-> [k \in Nucs |-> AvgCompDens(cs, r, c, k)]],
+             ctemp |-> [c \in Comps |-> RInt(cs[1].t[c])],
+             ntemp |-> <<>>,
+             bu    |-> Burnup(cs, r)]
        ELSE IF ByComp(cs, opt) THEN
             [out |-> "ok", mode |-> "component", src |-> ps[1], lfp |-> cs[1].lfp,  \* geometry copied from the first candidate
              dens  |-> [k \in Nucs |-> AvgDens(cs, r, k)],                       \* = the homogenised by-component result
